@@ -461,16 +461,19 @@ func (m *MemoryBackend) Terminate(client *Client) error {
 	// get session (missing if the setup failed)
 	sess, _ := client.Session().(*memorySession)
 
-	// release session if available
-	if sess != nil {
+	// release session if available and still owned by the client
+	if sess != nil && sess.activeClient == client {
 		sess.activeClient = nil
 	}
 
 	// remove any temporary session
 	delete(m.temporarySessions, client)
 
-	// remove any saved client
-	delete(m.activeClients, client.ID())
+	// remove the saved client, the id may have been taken by another client
+	// in the meantime (e.g. if the setup of this client has failed)
+	if m.activeClients[client.ID()] == client {
+		delete(m.activeClients, client.ID())
+	}
 
 	return nil
 }
